@@ -1106,7 +1106,15 @@ fn reorder_case(cx: &mut Ctx, builds: &[Value], exhaustive: bool) {
             let vals: Vec<u64> = b["values"].as_array().map(|a| a.iter().map(|x| x.as_u64().unwrap_or(0)).collect()).unwrap_or_default();
             let neg = b["neg"].as_bool().unwrap_or(false);
             let mut bl = match ZReorderMapBuilder::new(&path, vals.len(), if neg { -1 } else { 1 }) { Ok(b) => b, Err(e) => { problem = Some(format!("build {}: new failed: {}", k, e)); return; } };
-            for &v in &vals { if let Err(_) = bl.push(v as usize) { refused = true; return; } }
+            // "bad": [[i, v], ..] - before value i a value above the 40-bit limit is pushed; it is refused and the build carries
+            // on as if it had not been attempted (the file is the one of `values` alone)
+            let bad: Vec<(usize, u64)> = b["bad"].as_array().map(|a| a.iter().map(|x| (x[0].as_u64().unwrap_or(0) as usize, x[1].as_u64().unwrap_or(u64::MAX))).collect()).unwrap_or_default();
+            for i in 0..=vals.len() {
+                for (_, bv) in bad.iter().filter(|(bi, bv)| *bi == i && *bv > 0x7F_FFFF_FFFF) {
+                    if bl.push(*bv as usize).is_ok() { problem = Some(format!("build {}: push({:#x}) accepted although the value does not fit the 40-bit field", k, bv)); return; }
+                }
+                if i < vals.len() { if let Err(_) = bl.push(vals[i] as usize) { refused = true; return; } }
+            }
             let t0 = build_segs.last().map(|s: &(usize, usize)| s.1).unwrap_or(0);
             if let Err(e) = bl.finish() { problem = Some(format!("build {}: finish failed: {}", k, e)); return; }
             build_segs.push((t0, trace::len()));
@@ -1183,6 +1191,11 @@ fn gen_reorder(r: &mut Rng) -> Vec<Value> {
             }
         }
         vals.truncate(n);
+        if r.chance(1, 3) {
+            let bad: Vec<Value> = (0..r.range(1, 3)).map(|_| json!([r.below(n as u64 + 1), *r.pick(&[0x80_0000_0000u64, 0x80_0000_0001, u64::MAX >> 1, 0xFF_FFFF_FFFF])])).collect();
+            out.push(json!({"values": vals, "neg": neg, "bad": bad}));
+            continue;
+        }
         out.push(json!({"values": vals, "neg": neg}));
     }
     out
